@@ -171,31 +171,61 @@ Proof.
 Qed.
 
 (* ------------------------------------------------------------------ which strings str2int accepts *)
-(* Lua's l_str2int / luaB_tonumber accept a numeral only if it has at least one digit *)
-Definition has_digit (s : list Z) : Prop := exists c x, In c s /\ digit_of c = Some x.
-Definition str2int_sound : Prop := forall base s v, nl_str2int base s = Some v -> has_digit s.
-
-Lemma skip_spaces_in c s : In c (skip_spaces s) -> In c s.
+Lemma skip_spaces_split s : exists sp, s = sp ++ skip_spaces s /\ Forall (fun c => isspace c = true) sp.
 Proof.
-  induction s as [|d r IH]; cbn [skip_spaces]; [tauto|]. destruct (isspace d); [intros H; right; apply IH; exact H|tauto].
+  induction s as [|c r IH]; [exists []; split; [reflexivity|constructor]|].
+  cbn [skip_spaces]. destruct (isspace c) eqn:E.
+  - destruct IH as (sp & E1 & F1). exists (c :: sp). split; [cbn; f_equal; exact E1|constructor; assumption].
+  - exists []. split; [reflexivity|constructor].
 Qed.
 
-Lemma str2int_digits_moved base n0 s n rest : str2int_digits base n0 s = (n, rest) -> n <> n0 -> has_digit s.
+Lemma skip_spaces_nil s : skip_spaces s = [] -> Forall (fun c => isspace c = true) s.
 Proof.
-  destruct s as [|c r]; cbn [str2int_digits]; [intros [= <- _] H; contradiction|].
-  destruct (digit_of c) as [x|] eqn:E; [|intros [= <- _] H; contradiction].
-  intros _ _. exists c, x. split; [left; reflexivity|exact E].
+  intros H. destruct (skip_spaces_split s) as (sp & E & F). rewrite H, app_nil_r in E. subst. exact F.
 Qed.
 
-(* after 4928697 the digit loop must move: whatever str2int accepts contains a digit *)
-Lemma str2int_sound_holds : str2int_sound.
+Lemma u64_step_gen m b x : u64 (u64 (u64 m * b) + x) = u64 (m * b + x).
 Proof.
-  intros base s v. unfold nl_str2int. destruct s as [|c0 s0]; [discriminate|]. set (s := c0 :: s0).
+  unfold u64. rewrite Zplus_mod_idemp_l. rewrite (Z.add_mod (m mod two64 * b) x two64) by (unfold two64; lia).
+  rewrite Zmult_mod_idemp_l. rewrite <- Z.add_mod by (unfold two64; lia). reflexivity.
+Qed.
+
+(* the digit loop: the longest prefix of digits of the base, its value modulo 2^64 *)
+Lemma str2int_digits_split b : forall s m n rest, str2int_digits b (u64 m) s = (n, rest) ->
+  exists ds, s = ds ++ rest /\ Forall (valid_digit b) ds /\ n = u64 (digits_value b m (map digit_val ds)).
+Proof.
+  induction s as [|c r IH]; intros m n rest; cbn [str2int_digits].
+  - intros [= <- <-]. exists []. split; [reflexivity|]. split; [constructor|reflexivity].
+  - destruct (digit_of c) as [x|] eqn:Ed.
+    + destruct (Z.ltb_spec x b) as [Hx|Hx].
+      * rewrite u64_step_gen. intros E. destruct (IH _ _ _ E) as (ds & E1 & F1 & V1).
+        exists (c :: ds). split; [cbn; f_equal; exact E1|]. split; [constructor; [exists x; split; assumption|exact F1]|].
+        cbn [map digits_value]. unfold digit_val at 1. rewrite Ed. exact V1.
+      * intros [= <- <-]. exists []. split; [reflexivity|]. split; [constructor|reflexivity].
+    + intros [= <- <-]. exists []. split; [reflexivity|]. split; [constructor|reflexivity].
+Qed.
+
+Lemma str2int_digits_len b : forall s m n rest, str2int_digits b m s = (n, rest) -> (length rest <= length s)%nat.
+Proof.
+  induction s as [|c r IH]; intros m n rest; cbn [str2int_digits]; [intros [= _ <-]; apply le_n|].
+  destruct (digit_of c) as [z|]; [destruct (z <? b)|]; try (intros [= _ <-]; apply le_n).
+  intros E. apply IH in E. cbn [length]. lia.
+Qed.
+
+(* after 4928697: whatever str2int accepts is a numeral of that shape, with that value *)
+Lemma str2int_sound_holds base s v : nl_str2int base s = Some v -> numeral_shape base s v.
+Proof.
+  unfold nl_str2int. destruct s as [|c0 s0]; [discriminate|]. set (s := c0 :: s0).
+  destruct (skip_spaces_split s) as (sp1 & Es & Fsp1).
   destruct (skip_spaces s) as [|c r] eqn:Esk; [discriminate|].
-  assert (Hin : forall y, In y (c :: r) -> In y s) by (intros y Hy; apply skip_spaces_in; rewrite Esk; exact Hy).
-  set (body := if (c =? 45) || (c =? 43) then r else c :: r).
-  assert (Hb : forall y, In y body -> In y s).
-  { intros y Hy. apply Hin. subst body. destruct ((c =? 45) || (c =? 43)); [right; exact Hy|exact Hy]. }
+  set (neg := c =? 45).
+  set (body := if neg || (c =? 43) then r else c :: r).
+  set (sgn := if neg then [45] else if c =? 43 then [43] else []).
+  assert (Ecr : c :: r = sgn ++ body).
+  { subst sgn body neg. destruct (Z.eqb_spec c 45) as [->|]; [reflexivity|]. destruct (Z.eqb_spec c 43) as [->|]; reflexivity. }
+  assert (Hsgn : (sgn = [] \/ sgn = [45] \/ sgn = [43]) /\ match sgn with [45] => true | _ => false end = neg).
+  { subst sgn neg. destruct (Z.eqb_spec c 45); [tauto|]. destruct (c =? 43); tauto. }
+  destruct Hsgn as [Hsg Hneg].
   set (pb := if base =? 0
              then match body with
                   | b0 :: bc :: r2 =>
@@ -204,15 +234,52 @@ Proof.
                   | _ => (10, body)
                   end
              else (base, body)).
-  assert (Hp : forall y, In y (snd pb) -> In y body).
-  { subst pb. destruct (base =? 0); [|tauto]. destruct body as [|b0 [|bc r2]]; try tauto.
-    destruct (negb (b0 =? 48)); [tauto|].
-    destruct ((bc =? 98) || (bc =? 66)); [intros y Hy; right; right; exact Hy|].
-    destruct ((bc =? 120) || (bc =? 88)); [intros y Hy; right; right; exact Hy|tauto]. }
-  destruct pb as [b body'] eqn:Epb. cbn [snd] in Hp.
-  destruct (negb ((2 <=? b) && (b <=? 36))); [discriminate|].
+  assert (Hp : exists pre, body = pre ++ snd pb /\
+                ((pre = [] /\ fst pb = (if base =? 0 then 10 else base)) \/
+                 (base = 0 /\ exists x, pre = [48; x] /\ ((x = 120 \/ x = 88) /\ fst pb = 16 \/ (x = 98 \/ x = 66) /\ fst pb = 2)))).
+  { subst pb. destruct (Z.eqb_spec base 0) as [E0|N0].
+    2:{ exists []. split; [reflexivity|]. left. split; reflexivity. }
+    destruct body as [|b0 [|bc r2]]; try (exists []; split; [reflexivity|left; split; reflexivity]).
+    destruct (Z.eqb_spec b0 48) as [->|]; cbn [negb]; [|exists []; split; [reflexivity|left; split; reflexivity]].
+    destruct ((bc =? 98) || (bc =? 66)) eqn:Eb.
+    { exists [48; bc]. split; [reflexivity|]. right. split; [exact E0|]. exists bc. split; [reflexivity|]. right. split; [lia|reflexivity]. }
+    destruct ((bc =? 120) || (bc =? 88)) eqn:Ex.
+    { exists [48; bc]. split; [reflexivity|]. right. split; [exact E0|]. exists bc. split; [reflexivity|]. left. split; [lia|reflexivity]. }
+    exists []. split; [reflexivity|left; split; reflexivity]. }
+  destruct pb as [b body'] eqn:Epb. cbn [fst snd] in Hp. destruct Hp as (pre & Ebody & Hpre).
+  destruct (Z.leb_spec 2 b); cbn [andb negb]; [|discriminate].
+  destruct (Z.leb_spec b 36); cbn [negb]; [|discriminate].
   destruct (first_is_digit b body') eqn:Efd; cbn [negb]; [|discriminate].
-  intros _. unfold first_is_digit in Efd. destruct body' as [|y t]; [discriminate|].
-  destruct (digit_of y) as [x|] eqn:Ed; [|discriminate].
-  exists y, x. split; [apply Hb, Hp; left; reflexivity|exact Ed].
+  destruct (str2int_digits b 0 body') as [n rest] eqn:Ed.
+  destruct (skip_spaces rest) eqn:Er; [|discriminate].
+  intros [= <-].
+  change 0 with (u64 0) in Ed. destruct (str2int_digits_split b _ _ _ _ Ed) as (ds & Eds & Fds & Vn).
+  exists sp1, sgn, pre, ds, rest, b.
+  split; [rewrite Es at 1; rewrite Ecr, Ebody, Eds; try rewrite <- !app_assoc; reflexivity|].
+  split; [exact Fsp1|]. split; [apply skip_spaces_nil; exact Er|]. split; [exact Hsg|]. split; [exact Hpre|].
+  split; [lia|]. split.
+  - intros ->. cbn [app] in Eds. subst body'. unfold first_is_digit in Efd.
+    destruct rest as [|y t]; [discriminate|]. cbn [str2int_digits] in Ed.
+    destruct (digit_of y) as [x|]; [|discriminate]. rewrite Efd in Ed.
+    (* the loop would have consumed y *)
+    apply str2int_digits_len in Ed. cbn [length] in Ed. lia.
+  - split; [exact Fds|]. cbv zeta. rewrite Hneg. rewrite <- Vn. reflexivity.
+Qed.
+
+(* the shape does separate: a prefix alone, or a sign alone, is no numeral *)
+Lemma shape_rejects_prefix_only v : ~ numeral_shape 0 [48; 120] v.
+Proof.
+  intros (sp1 & sgn & pre & ds & sp2 & b & E & F1 & F2 & Hs & Hp & Hb & Hne & Fd & _).
+  destruct sp1 as [|a sp1'].
+  2:{ inversion F1 as [|? ? Ha _]. subst. cbn in E. inversion E. subst a. discriminate Ha. }
+  cbn [app] in E.
+  assert (sgn = []) by (destruct Hs as [-> | [-> | ->]]; [reflexivity|discriminate E|discriminate E]). subst sgn. cbn [app] in E.
+  destruct Hp as [[-> Hb10] | (_ & y & -> & _)].
+  2:{ cbn [app] in E. inversion E. destruct ds; [contradiction|discriminate]. }
+  cbn [app] in E. cbn in Hb10. subst b.
+  assert (Fall : Forall (fun c => valid_digit 10 c \/ isspace c = true) (ds ++ sp2)).
+  { apply Forall_app. split; [eapply Forall_impl; [|exact Fd]; intros c Hc; left; exact Hc|
+                              eapply Forall_impl; [|exact F2]; intros c Hc; right; exact Hc]. }
+  rewrite <- E in Fall. inversion Fall as [|? ? _ Fall']. inversion Fall' as [|? ? H120 _].
+  destruct H120 as [(dv & Hdv & Hlt)|Hsp]; [cbn in Hdv; inversion Hdv; subst dv; lia|discriminate Hsp].
 Qed.
